@@ -865,11 +865,6 @@ pub fn conv_strategy() -> impl proptest::strategy::Strategy<Value = ConvCase> + 
 
 pub const CONV_KINDS: [&str; 9] = ["m2:convert", "m2:skin-convert", "m2:anim-convert", "wmo:convert", "adt:convert", "wdt:convert", "wdl:convert", "blp:convert:to-image", "blp:convert:to-blp"];
 
-#[allow(dead_code)]
-fn _unused(_: &BTreeMap<u8, u8>, _: &BTreeSet<u8>) -> u64 {
-    fnv(b"")
-}
-
 // ==========================================================================================
 // dbc: export / list / info / discover / analyze against the library's parsed records
 
@@ -2047,7 +2042,7 @@ fn corrupt_one(path: &Path, spec: &ArchiveSpec, sel: (u16, u16)) -> Option<Strin
     let p = path.to_path_buf();
     let infos = vcheck::engine::guard("find_file", move || {
         let mut v = vec![];
-        if let Ok(mut a) = wow_mpq::Archive::open(&p) {
+        if let Ok(a) = wow_mpq::Archive::open(&p) {
             for n in &names {
                 if let Ok(Some(fi)) = a.find_file(n) {
                     if fi.compressed_size >= 16 {
@@ -2993,11 +2988,18 @@ pub fn flags_grid(thorough: bool) -> Vec<FlagsCase> {
             sets.push((vec![], all_o.clone()));
             sets.push((vec!["-q".into()], all_o.clone()));
         }
+        // by construction: every command sees every display flag on an input it cannot read
+        // (alone and all together), whatever the sampling below keeps
+        out.push(FlagsCase { cmd: fc.key.to_string(), base: fc.bases[0].to_string(), damage: Damage::Empty, display: no_q.clone(), other: vec![], order_a: 3, order_b: 7 });
+        for (i, d) in all_d.iter().enumerate() {
+            let dmg = if i % 2 == 0 { Damage::Garbage { len: 200, seed: 11 + i as u32, keep: 0 } } else { Damage::Truncate { sel: 9000 } };
+            out.push(FlagsCase { cmd: fc.key.to_string(), base: fc.bases[i % fc.bases.len()].to_string(), damage: dmg, display: vec![d.clone()], other: vec![], order_a: 1 + i as u16, order_b: 50 + i as u16 });
+        }
         for (bi, b) in fc.bases.iter().enumerate() {
             for (di, dmg) in damages.iter().enumerate() {
                 for (si, (d, o)) in sets.iter().enumerate() {
                     k += 1;
-                    if thorough || (bi + di + si) % 6 == k % 6 && (di < 2 || (bi + si) % 3 == 0) {
+                    if thorough || (bi + di + si) % 10 == k % 10 && (di < 2 || (bi + si) % 3 == 0) {
                         out.push(FlagsCase { cmd: fc.key.to_string(), base: b.to_string(), damage: dmg.clone(), display: d.clone(), other: o.clone(), order_a: (k % 97) as u16 + 1, order_b: (k % 89) as u16 + 100 });
                     }
                 }
